@@ -70,6 +70,11 @@ func (p *Publish) Decode(src []byte) (int, error) {
 		return total, err
 	}
 
+	// check topic
+	if len(topic) == 0 {
+		return total, makeError(PUBLISH, "topic name is empty")
+	}
+
 	// set topic
 	p.Message.Topic = topic
 
